@@ -19,6 +19,8 @@ RULE = ('fields: id{0,1,2^128-1} ts{0,1,2^63-1} duration{0,1,2^63-1} frames{0,1,
         'every single deviation from the baseline and every pair; auth{none, basic, basic w/o password, custom, several pairs, raising} '
         'x {poll, send}; non-trivial = the message carries at least one non-default field value'
         ' ; attribute values without protobuf form (None in a sequence, integers beyond 64 bits) and un-encodable attribute / resource keys; the resource through a real LongPoll.poll(); an auth provider handing out a new token per call')
+RULE_ADDED = 'rounds 4-5: falsy auth provider; wall clock stepping by -2 s .. +2 s during the collection'
+RULE = RULE + ' ; ' + RULE_ADDED
 ASSUMPTIONS = ['the transport is faked at channel.unary_unary (requests are really serialised and re-parsed)',
                'with a raising auth provider no request may be sent without metadata (zero requests is acceptable)']
 
